@@ -198,8 +198,11 @@ def rq_spline_harness(K, inverse, props, identity_init=False):
 
 
 def sample_box(rng, inverse, same_scale=False):
-    l = rng.normal() * 2; r = l + abs(rng.normal()) * 3 + 0.1
-    b = rng.normal() * 2; t = b + (abs(rng.normal()) * 3 + 0.1 if not same_scale else (r - l))
+    big = rng.choice([1.0, 1.0, 40.0, 1000.0])
+    l = rng.normal() * 2 * big; r = l + (abs(rng.normal()) * 3 + 0.1) * big
+    b = rng.normal() * 2 * big; t = b + ((abs(rng.normal()) * 3 + 0.1) * big if not same_scale else (r - l))
+    l, r, b, t = (float(np.float32(v)) for v in (l, r, b, t))
+    if same_scale: t = float(np.float32(b + (r - l)))
     lo, hi = (b, t) if inverse else (l, r)
     u = rng.choice([0.0, 1.0, rng.uniform()], p=[0.1, 0.1, 0.8])
     return {"x": np.array([lo + u * (hi - lo)]), "left": np.array(l), "right": np.array(r), "bottom": np.array(b), "top": np.array(t)}
